@@ -13,6 +13,8 @@
 #include <algorithm>
 #include <sys/socket.h>
 #include <poll.h>
+#include <sys/ioctl.h>
+#include <signal.h>
 #include <netinet/in.h>
 #include <arpa/inet.h>
 
@@ -195,13 +197,36 @@ static void mode_send(vf::Ctx& c)
 	long maxbig = c.opt->param("maxbig", 300000);
 	std::vector<SentMsg> sent;
 	for (int m = 0; m < nmsg; m++) { SentMsg sm; sm.text = c.rng.chance(0.5); sm.payload = randPayload(c.rng, pickLen(c.rng, c.idx + m, maxbig), sm.text); sent.push_back(sm); }
-	std::string d = vf::fmt("asl(%s) send:", aslIsClient ? "client" : "server");
+	// interrupted send: the first message is larger than the socket buffer, the reader holds back until the writer is blocked
+	// in send() with part of the message transferred, then one signal (handler without SA_RESTART) makes that send() return a
+	// short count; the rest of the message and the following messages must still arrive intact
+	bool intr = c.rng.chance(0.15);
+	if (intr) { sent[0].payload = randPayload(c.rng, (size_t)c.rng.range(600000, 1500000), sent[0].text); if (nmsg == 1) { SentMsg sm; sm.text = true; sm.payload = "after the interrupted message"; sent.push_back(sm); nmsg++; } }
+	static bool handlerSet = false;
+	if (!handlerSet) { struct sigaction sa; memset(&sa, 0, sizeof sa); sa.sa_handler = [](int) {}; sigemptyset(&sa.sa_mask); sa.sa_flags = 0; sigaction(SIGUSR2, &sa, 0); handlerSet = true; }
+	pthread_t writer = pthread_self();
+	std::string d = vf::fmt("asl(%s) send%s:", aslIsClient ? "client" : "server", intr ? " (first send() interrupted by a signal after a partial transfer)" : "");
 	for (auto& s : sent) d += vf::fmt(" %s[%d]", s.text ? "text" : "binary", (int)s.payload.size());
 	c.desc(d);
 	int sv[2];
 	if (socketpair(AF_UNIX, SOCK_STREAM, 0, sv) != 0) { c.inconclusive("socketpair"); return; }
 	std::string wire;
-	std::thread rd([&]() { char buf[65536]; for (;;) { ssize_t n = read(sv[1], buf, sizeof buf); if (n <= 0) break; wire.append(buf, n); } });
+	std::atomic<int> signalled(0);
+	std::thread rd([&]() {
+		char buf[65536];
+		if (intr) {
+			int last = -1, stable = 0;
+			for (int i = 0; i < 1000 && stable < 6; i++) {   // up to 5 s; 6 x 5 ms without growth above 64 KiB = the writer is blocked
+				int avail = 0;
+				ioctl(sv[1], FIONREAD, &avail);
+				if (avail >= 65536 && avail == last) stable++; else stable = 0;
+				last = avail;
+				struct timespec ts = {0, 5000000}; nanosleep(&ts, 0);
+			}
+			if (stable >= 6) { pthread_kill(writer, SIGUSR2); signalled = 1; }
+		}
+		for (;;) { ssize_t n = read(sv[1], buf, sizeof buf); if (n <= 0) break; wire.append(buf, n); }
+	});
 	{
 		WebSocket ws(Socket(sv[0]), aslIsClient);
 		for (auto& s : sent) {
@@ -240,6 +265,7 @@ static void mode_send(vf::Ctx& c)
 	if (msgs.size() != sent.size()) c.fail("send.message-count", vf::fmt("%d sent, %d on the wire", (int)sent.size(), (int)msgs.size()));
 	for (size_t i = 0; i < sent.size(); i++) if (msgs[i] != sent[i].payload) c.fail("send.payload", vf::fmt("message %d (%d bytes)", (int)i, (int)sent[i].payload.size()));
 	c.count("messages", sent.size());
+	if (intr) c.count(signalled ? "sends_interrupted_after_partial_transfer" : "interrupt_planned_but_writer_never_blocked");
 	c.distinct(vf::fnv(wire.substr(0, 4096), wire.size()));
 	if (c.want_sample()) c.sample(d);
 }
@@ -363,6 +389,71 @@ static void mode_handshake(vf::Ctx& c)
 	if (c.want_sample()) c.sample(vf::vis(req, 300));
 }
 
+// ---------------------------------------------------------------- many handshakes at the same instant on one server
+// Each key's accept value is first obtained with nothing else running (and written to the records the Python reference
+// checks against RFC 6455); the same keys are then used by several clients released together, for several rounds: every
+// concurrent handshake must give the same accept value.
+static std::string oneHandshake(HsServer& srv, const std::string& key, std::string& firstFrameText)
+{
+	std::string req = "GET /chat HTTP/1.1\r\nHost: example.test\r\nUpgrade: websocket\r\nConnection: Upgrade\r\nSec-WebSocket-Key: " + key + "\r\nSec-WebSocket-Version: 13\r\n\r\n";
+	int sv[2];
+	if (socketpair(AF_UNIX, SOCK_STREAM, 0, sv) != 0) return "<socketpair>";
+	std::thread th([&]() { srv.handle(sv[0]); });
+	writeAll(sv[1], req);
+	std::string resp;
+	char buf[4096];
+	for (;;) { struct pollfd p = {sv[1], POLLIN, 0}; if (poll(&p, 1, 20000) <= 0) break; ssize_t n = read(sv[1], buf, sizeof buf); if (n <= 0) break; resp.append(buf, n); }
+	close(sv[1]);
+	th.join();
+	size_t p = resp.find("Sec-WebSocket-Accept: ");
+	if (resp.compare(0, 12, "HTTP/1.1 101") != 0 || p == std::string::npos) return "<not accepted: " + vf::vis(resp, 80) + ">";
+	size_t e = resp.find("\r\n", p);
+	size_t he = resp.find("\r\n\r\n");
+	if (he != std::string::npos) { std::string after = resp.substr(he + 4); size_t off = 0; Frame fr; if (parseFrame(after, off, fr) == 1) firstFrameText = fr.payload; }
+	return resp.substr(p + 22, e - p - 22);
+}
+
+static void mode_handshake_mt(vf::Ctx& c)
+{
+	static const char b64[] = "ABCDEFGHIJKLMNOPQRSTUVWXYZabcdefghijklmnopqrstuvwxyz0123456789+/";
+	int T = c.rng.range(2, 12), rounds = (int)c.opt->param("rounds", 40);
+	std::vector<std::string> keys(T), ref(T);
+	HsServer srv;
+	for (int i = 0; i < T; i++) {
+		for (int k = 0; k < 22; k++) keys[i] += b64[c.rng.below(64)];
+		keys[i] += "==";
+		std::string ff;
+		ref[i] = oneHandshake(srv, keys[i], ff);
+		if (ref[i][0] == '<') { c.fail("handshake.not-accepted", ref[i]); return; }
+		if (recf) fprintf(recf, "H\t%s\t%s\n", keys[i].c_str(), ref[i].c_str());
+	}
+	c.desc(vf::fmt("%d clients handshaking at the same instant with one server, %d rounds, keys %s ...", T, rounds, keys[0].c_str()));
+	std::atomic<int> arrived(0), wrong(0), badframe(0);
+	std::atomic<int> phase(0);
+	std::mutex mu;
+	std::string why;
+	std::vector<std::thread> th;
+	for (int i = 0; i < T; i++)
+		th.emplace_back([&, i]() {
+			for (int r = 0; r < rounds; r++) {
+				// barrier: everybody starts round r together
+				arrived++;
+				while (arrived.load() < (r + 1) * T) sched_yield();
+				std::string ff;
+				std::string got = oneHandshake(srv, keys[i], ff);
+				if (got != ref[i]) { wrong++; std::lock_guard<std::mutex> l(mu); if (why.empty()) why = vf::fmt("round %d client %d key %s: accept '%s', alone it was '%s'", r, i, keys[i].c_str(), got.c_str(), ref[i].c_str()); }
+				if (ff != "hello") badframe++;
+			}
+		});
+	for (auto& t : th) t.join();
+	if (wrong) c.fail("handshake.accept-key-differs-under-concurrency", vf::fmt("%d of %d concurrent handshakes; ", (int)wrong, T * rounds) + why);
+	if (badframe) c.fail("handshake.first-frame-after-upgrade", vf::fmt("%d of %d concurrent handshakes", (int)badframe, T * rounds));
+	c.count("concurrent_handshakes", T * rounds);
+	c.evals(T * rounds);
+	c.distinct(vf::fnv(keys[0]));
+	if (c.want_sample()) c.sample(c.curdesc());
+}
+
 // ---------------------------------------------------------------- hostile frames; every stream also cut at every offset
 static void runHostile(vf::Ctx& c, const std::string& stream, bool aslIsClient, const std::string& what)
 {
@@ -449,6 +540,7 @@ int main(int argc, char** argv)
 {
 	vf::Runner R;
 	R.add("recv", mode_recv, "independent framer -> library receive(): sizes, fragmentation, mask keys, pings between fragments");
+	R.add("handshake_mt", mode_handshake_mt, "the same keys used by several clients released together on one server: accept values must equal the ones obtained alone");
 	R.add("send", mode_send, "library send() -> independent deframer: payload, opcode, mask bit, minimal length form");
 	R.add("loop", mode_loop, "library client <-> library server over loopback TCP");
 	R.add("handshake", mode_handshake, "upgrade request with random key / header spellings through WebSocketServer");
